@@ -667,7 +667,8 @@ func genBackToBack(r *vh.Rand) *ChanCase {
 
 func genTLSRestart(r *vh.Rand, idx int) *tlsrestart.Scenario {
 	kinds := []string{"restart", "restart-sends-while-down", "remote-closes-connection"}
-	return &tlsrestart.Scenario{Kind: kinds[idx%3], Pre: r.Range(1, 3), DownMs: vh.Pick(r, []int{0, 20, 100}), After: 24, IntervalMs: 15, Size: vh.Pick(r, []int{40, 200, 1200})}
+	// every other scenario on the IPv6 loopback (bind address [::1]), when the machine has one
+	return &tlsrestart.Scenario{Kind: kinds[idx%3], Pre: r.Range(1, 3), DownMs: vh.Pick(r, []int{0, 20, 100}), After: 24, IntervalMs: 15, Size: vh.Pick(r, []int{40, 200, 1200}), IPv6: idx%2 == 1}
 }
 
 func genWire(r *vh.Rand, thorough bool) *WireCase {
@@ -779,9 +780,18 @@ func TestCheck(t *testing.T) {
 			// ones in flight while the dead connection is discovered are lost)
 			o := tlsrestart.Run(*c.TLS)
 			tags = map[string]int{c.TLS.Kind: 1}
+			if c.TLS.IPv6 {
+				tags["bound-to-ipv6-loopback"] = 1
+			}
 			switch {
 			case o.Skipped != "":
 				tags["skipped: "+o.Skipped] = 1
+			case o.NeverDelivered:
+				viols = append(viols, vh.Violation{Key: "tls-packets-never-delivered",
+					What: fmt.Sprintf("%s (ipv6=%v): WriteTo accepted %d packets for a healthy peer endpoint and none was delivered (a packet the reader cannot turn into a memberlist packet, e.g. an unparsable source address, also ends the reading of that connection)", c.TLS.Kind, c.TLS.IPv6, max(1, c.TLS.Pre)),
+					Case: *c})
+			case o.BadFrom != "":
+				viols = append(viols, vh.Violation{Key: "tls-packet-source-address-wrong", What: "a packet arrived with source address " + o.BadFrom, Case: *c})
 			case !o.TailArrived:
 				viols = append(viols, vh.Violation{Key: "tls-packets-lost-after-peer-restart",
 					What: fmt.Sprintf("%s: %d packets sent after the event (%d WriteTo calls returned nil), only %d arrived and the second half did not arrive completely; last error: %s", c.TLS.Kind, o.AfterSent, o.AfterOK, o.AfterArrived, o.LastErr),
